@@ -84,16 +84,20 @@ func workloadDocs(w *World, wl *Workload) []Doc {
 	case wl.Kind == "Pod":
 		om.Labels = wl.Labels
 		add("Pod", &corev1.Pod{TypeMeta: metav1.TypeMeta{APIVersion: "v1", Kind: "Pod"}, ObjectMeta: om, Spec: podSpec(wl), Status: status})
-	case strings.HasPrefix(wl.Kind, "Owned:"):
+	case isOwned(wl.Kind):
 		n := wl.Replicas
 		if n < 1 {
 			n = 1
 		}
 		ctl := true
-		okind := strings.TrimPrefix(wl.Kind, "Owned:")
+		okind := ownedKind(wl.Kind)
 		for i := 0; i < n; i++ {
 			pm := metav1.ObjectMeta{Name: fmt.Sprintf("%s-x%dz", wl.Name, i), Namespace: ns, Labels: wl.Labels,
 				OwnerReferences: []metav1.OwnerReference{{APIVersion: "apps/v1", Kind: okind, Name: wl.Name, UID: "u", Controller: &ctl}}}
+			if strings.HasPrefix(wl.Kind, "Owned2:") {
+				// a non-controller reference (e.g. a scheduler's pod group) listed before the controller one
+				pm.OwnerReferences = append([]metav1.OwnerReference{{APIVersion: "scheduling.x-k8s.io/v1alpha1", Kind: "PodGroup", Name: "pg-" + wl.Name, UID: "u0"}}, pm.OwnerReferences...)
+			}
 			docs = append(docs, Doc{Kind: "Pod", Key: "Pod/" + wl.Ns + "/" + pm.Name, Obj: &corev1.Pod{TypeMeta: metav1.TypeMeta{APIVersion: "v1", Kind: "Pod"}, ObjectMeta: pm, Spec: podSpec(wl), Status: status}})
 		}
 	case wl.Kind == "Deployment":
@@ -179,7 +183,27 @@ func (w *World) Docs() []Doc {
 			peers, ports := conv(&p.Egress[ri])
 			np.Spec.Egress = append(np.Spec.Egress, netv1.NetworkPolicyEgressRule{To: peers, Ports: ports})
 		}
-		docs = append(docs, Doc{Kind: "NetworkPolicy", Key: "NetworkPolicy/" + p.Ns + "/" + p.Name, Obj: np})
+		var npObj interface{} = np
+		if (p.EmptyIngress && len(p.Ingress) == 0) || (p.EmptyEgress && len(p.Egress) == 0) {
+			// the typed object omits empty lists: write the explicit empty list through a generic tree
+			b, err := json.Marshal(np)
+			if err != nil {
+				panic(err)
+			}
+			var m map[string]interface{}
+			if err := json.Unmarshal(b, &m); err != nil {
+				panic(err)
+			}
+			spec := m["spec"].(map[string]interface{})
+			if p.EmptyIngress && len(p.Ingress) == 0 {
+				spec["ingress"] = []interface{}{}
+			}
+			if p.EmptyEgress && len(p.Egress) == 0 {
+				spec["egress"] = []interface{}{}
+			}
+			npObj = m
+		}
+		docs = append(docs, Doc{Kind: "NetworkPolicy", Key: "NetworkPolicy/" + p.Ns + "/" + p.Name, Obj: npObj})
 	}
 	aports := func(r *ARule) *[]apisv1a.AdminNetworkPolicyPort {
 		if !r.HasPorts {
